@@ -170,6 +170,7 @@ class Session:
         self.model = FakeModel(islinear)
         self.mesh = FakeMesh(ncell)
         self.disc = RecDisc(ncell, profile, dtfun, dtlocal_spread=dtlocal_spread, rhs_mode=rhs_mode)
+        self.disc.model, self.disc.mesh = self.model, self.mesh     # as flowdyn.modeldisc.base exposes them
         self.log = self.disc.log
         self.Rec = recording_class(self.cls, self.log)
         kw = {}
@@ -236,7 +237,7 @@ class Session:
                    caller=(float(f.time), f.it, f.data[0].tobytes()) == fb,
                    nit=self.solver.nit(), totnit=self.solver.totnit(), raised=self.raised,
                    res=[(float(r.time), r.it, r.data[0].tobytes()) for r in res], results=res,
-                   dtlocal=dtlocal, ev=ev, freqs_arg=sorted(int(mv.get("frequency", 10)) for mv in (monitors or {}).values()))
+                   cfl=float(cfl), dtlocal=dtlocal, ev=ev, freqs_arg=sorted(int(mv.get("frequency", 10)) for mv in (monitors or {}).values()))
         # trajectory: the states presented at the TimeStep seam
         ts = [e for e in ev if e[0] == "ts"]
         raw["traj"] = [(e[1], e[2], e[3], e[4]) for e in ts]
@@ -348,6 +349,30 @@ class Session:
         raw["freqs_arg"] = sorted(int(m[0]) for m in mons) if not raw.get("freqs_arg") else raw["freqs_arg"]
 
 
+def changing_cfl_calls():
+    """solve / restart / solve / restart on ONE solver object with a different CFL number each time, rhs == 1, non-uniform
+    per-cell steps: yields (class, dtlocal, islinear, op, cfl, maxit, raw) with raw["cellsok"] cleared when the data increment
+    of some cell is not nit x CFL x step x (its own factor with dtlocal)"""
+    spread = np.array([2.0, 1.0, 4.0, 1.5])
+    for cn in ("explicit", "rk2", "rk2_heun"):
+        for dtlocal in (False, True):
+            for islin in (0, 1):
+                S = Session(cn, ncell=4, profile="c4", dtlocal_spread=True, rhs_mode="one", islinear=islin)
+                prev = None
+                for (op, cfl, nmax) in (("solve", 0.5, 4), ("restart", 1.0, 3), ("solve", 2.0, 2), ("restart", 0.25, 2)):
+                    arg = S.f0 if op == "solve" else prev[-1]
+                    raw, res = S.call(op, arg, cfl, [], {"maxit": nmax}, directives={"dtlocal": True} if dtlocal else None)
+                    raw["rhs_mode"] = "one"
+                    inc = np.frombuffer(raw["bfin"], dtype=float) - np.frombuffer(raw["b0"], dtype=float)
+                    want = raw["nit"] * cfl * 0.25 * (spread if dtlocal else np.ones(4))
+                    if raw["nit"] != nmax or not np.array_equal(inc, want):
+                        raw["cellsok"] = False
+                    yield (cn, dtlocal, islin, op, cfl, nmax, raw)
+                    prev = res
+                    if not res:
+                        break
+
+
 def project(raws, rid):
     """rank all times of a family of raw observations and hash-cons the data; returns the JSON-able calls"""
     times = []
@@ -420,7 +445,7 @@ def describe(raw):
     return dict(cls=raw["clsname"], op=raw["op"], t0=raw["t0"], tsave=raw["tsave"], tot=raw["tot"],
                 maxit=raw["maxit"], nit=raw["nit"], res_times=[t for (t, _, _) in raw["res"]],
                 res_it=[i for (_, i, _) in raw["res"]], traj_t=[t for (t, _, _, _) in raw["traj"]],
-                tfin=raw["tfin"], raised=raw["raised"])
+                tfin=raw["tfin"], raised=raw["raised"], cfl=raw.get("cfl", 1.0))
 
 
 def lattice(t):
@@ -451,7 +476,10 @@ def trace_of(raws, froms, kind, prof, t0, tid):
         events.append(dict(e="call", op=r["op"], **{"from": frm}, tsave=[L(t) for t in r["tsave"]],
                            tot=L(r["tot"]) if r["tot"] is not None else -1,
                            maxit=int(r["maxit"]) if r["maxit"] is not None else -1,
-                           freqs=r["freqs_arg"], id=ids(r["b0"]), t=L(r["t0"]), it=int(r["it0"])))
+                           freqs=r["freqs_arg"], id=ids(r["b0"]), t=L(r["t0"]), it=int(r["it0"]),
+                           cfl=int(r.get("cfl", 1.0))))
+        if float(r.get("cfl", 1.0)) != int(r.get("cfl", 1.0)):
+            ok = False
         cur = None
         for e in r["ev"]:
             if e[0] == "ts":
